@@ -267,6 +267,7 @@ namespace plan
     BP b;
     std::shared_ptr<BodyItem> item;
     int cut_mode = 0; // CUT: 0 = new read() only, 1 = solve() in between
+    bool structural = false; // ASSERT: fixes a factor of a product in a rule (`g.a == 3.0;` right after the goal): never left out
   };
 
   struct Model
